@@ -14,3 +14,4 @@ import TeosVerif.Props.C05
 #print axioms Teos.C05.all_due_recorded_from_start
 #print axioms Teos.C05.tidy_run
 #print axioms Teos.C05.exactly_one_at_stable_points
+#print axioms Teos.C05.record_call_sites_are_the_modelled_ones
